@@ -702,6 +702,17 @@ def _run_check(ctx, mod, replay):
         if nontrivial(c):
             seen_nt.add(c.line)
 
+    # ---- generator guards: a module may state what its case distribution must keep looking like (a generator that
+    # silently stopped reaching the code — every program rejected, every file unreadable — is a broken tie, not a pass)
+    g = getattr(mod, "guards", None)
+    if g:
+        for msg in g(ctx, cases):
+            ctx.problems.append(msg)
+    floor = NONTRIVIAL_FLOOR.get(ctx.prop)
+    if floor and cases and len(seen_nt) < floor * len(cases):
+        ctx.problems.append(f"generator degenerate: only {len(seen_nt)} of {len(cases)} cases are non-trivial (floor {floor:.2f}: about half of what this check "
+                            "reaches on the tree it was built for) — the cases no longer exercise the code")
+
     # ---- report
     for key, cs in sorted(known_hits.items()):
         print(f"KNOWN-FINDING: property={ctx.prop} {known_keys[key]['what']} [key={key}; {len(cs)} case(s), e.g. {cs[0].line[:100]}]")
@@ -780,6 +791,13 @@ def _run_check(ctx, mod, replay):
           f"model disagreements {len(disagreements)}; oracle failures {len(oracle_fail)}; known-finding hits {sum(len(v) for v in known_hits.values())}; "
           f"problems {len(ctx.problems)}; {time.time() - ctx.t0:.1f}s")
     return rc
+
+
+# fraction of non-trivial cases below which a run is reported as a broken tie (about half of the fraction observed on the tree the
+# checks were built for, both tiers)
+NONTRIVIAL_FLOOR = {"C01": 0.5, "C02": 0.15, "C03": 0.35, "C04": 0.18, "C05": 0.2, "C06": 0.3, "C07": 0.17, "C08": 0.45, "C09": 0.5, "C10": 0.35,
+                    "C11": 0.4, "C12": 0.3, "C13": 0.4, "C14": 0.4, "C15": 0.5, "C16": 0.5, "C17": 0.45, "C18": 0.35, "C19": 0.3, "C20": 0.5,
+                    "C21": 0.45, "C22": 0.5, "C23": 0.3, "C24": 0.5}
 
 
 def _sample(cases, k, ctx):
